@@ -11,7 +11,12 @@ Einsum, MatMulInteger, MatMulNBits, Conv/ConvTranspose/ConvInteger, attention, L
 softmax, normalisations, elementwise SIMD kernels, Transpose/Concat/Expand/Gather copies, quantisation) with the
 kernel-facing dimensions drawn from {1,2,15,16,17,31,32,33,63,64,65,96,130} (N >= 64 favoured for the GEMM
 right-hand side so that several full column panels exist), the other dimensions tiny and integer-valued data, so
-that layout-dependent packing / tiling paths are crossed and judged bit-exactly against the contiguous run.  TLC validates the trace with
+that layout-dependent packing / tiling paths are crossed and judged bit-exactly against the contiguous run.
+Its "thr/bat/" part (37 entries) gives every operator with batch semantics (MatMul, Einsum, MatMulInteger,
+MatMulNBits, Attention, Conv, pooling, rank-4 elementwise binary ops, Where, reductions, Softmax, normalisations,
+Transpose, Concat, Gather, Slice) operands of rank >= 4 whose content is constant along a proper non-empty subset
+of the batch dims (each subset; all sizes > 1), which the broadcast layout class turns into PARTIAL broadcast
+views: stride 0 on some batch dims, distinct matrices / rows along the others.  TLC validates the trace with
 Trace_Relational.tla (OpContracts.LayoutIndependent on shape, dtype and bits against the
 all-contiguous run)."""
 import collections
@@ -81,7 +86,7 @@ def run(ctx):
     elif ctx.quick:
         batches = [("q", ["--cases", 14, "--model-rounds", 30]),
                    # threshold sub-family: dims around / beyond the kernels' block and vector sizes
-                   ("thr", ["--only", "thr/", "--thr", "--cases", 5, "--model-rounds", 0])]
+                   ("thr", ["--only", "thr/", "--thr", "--cases", 4, "--model-rounds", 0])]
     else:
         # several moderately sized traces (the trace spec loads a whole trace into memory)
         batches = [("t%d" % i, ["--cases", 16, "--model-rounds", 60, "--exhaustive3"]) for i in range(12)]
@@ -112,6 +117,8 @@ def run(ctx):
     ctx.cov["contiguous_run_failed_nothing_required"] = st.get("ref_failed", 0)
     ctx.cov["bits_differ_within_rounding_bound"] = st.get("rounding_only", 0)
     thr = {k: o for k, o in ops.items() if k.startswith("thr/")}
+    ctx.cov["partial_broadcast_entries"] = len([k for k in thr if k.startswith("thr/bat/")])
+    ctx.cov["partial_broadcast_view_runs"] = sum(o["runs"].get("broadcast", 0) for k, o in thr.items() if k.startswith("thr/bat/"))
     ctx.cov["threshold_family_entries"] = len(thr)
     ctx.cov["threshold_family_cases"] = sum(o["cases"] for o in thr.values())
     ctx.cov["threshold_family_layout_runs"] = sum(o["runs"].get("layout_runs", 0) for o in thr.values())
